@@ -87,6 +87,39 @@ namespace vf
       }
    };
 
+   // symbolic sub-rule whose behaviour may also depend on where its (sub-)input ends: for rematch<> / minus<>
+   extern "C" int verif_sym2( int k, unsigned long pos, unsigned long end, int a, int m, unsigned long* np );
+
+   template< int K >
+   struct sym2
+   {
+      using rule_t = sym2;
+      using subs_t = empty_list;
+
+      template< apply_mode A,
+                rewind_mode M,
+                template< typename... >
+                class Action,
+                template< typename... >
+                class Control,
+                typename ParseInput,
+                typename... States >
+      [[nodiscard]] static bool match( ParseInput& in, States&&... /*unused*/ )
+      {
+         unsigned long np = 0;
+         const unsigned long pos = in.byte();
+         const int r = verif_sym2( K, pos, pos + in.size( 0 ), int( A ), int( M ), &np );
+         in.bump_in_this_line( np - pos );
+         if( r == 2 ) {
+            throw verif_exc{ 1100 + K, in.byte(), 0, 0 };
+         }
+         if( r == 3 ) {
+            throw foreign_exc{ 2100 + K };
+         }
+         return r == 1;
+      }
+   };
+
    template< int K >
    struct rid< sym< K > >
    {
